@@ -161,6 +161,17 @@ func hunkKnown(wl, gl []string, i, j int) string {
 			allCommentOnly = false
 		}
 	}
+	// F9: a //line (or /*line) directive written at column 1 inside an indented block is printed at the
+	// block's indentation (gofmt keeps line directives at column 1; dst does not record columns)
+	allDirective := true
+	for k := i; k < j; k++ {
+		if !(strings.HasPrefix(wl[k], "//line ") || strings.HasPrefix(wl[k], "/*line ")) || strings.TrimLeft(gl[k], "\t") != wl[k] || gl[k] == wl[k] {
+			allDirective = false
+		}
+	}
+	if allDirective {
+		return "C01-F9-line-directive-indented"
+	}
 	next := j // next line that is neither blank nor comment-only
 	for next < len(wl) && (li.blank(next) || li.commentOnly(next)) {
 		next++
